@@ -141,11 +141,92 @@ class FinalRoundChargesWithinDemand(Contract):
                 "zero_from_the_shut_off_month_onwards": And(Implies(a["biofuel_demand"][i] == 0, nb[i] == 0), Implies(a["feed_demand"][i] == 0, nf[i] == 0))}
 
 
+class FinalRoundCompensation(Contract):
+    """Mechanism behind sentence 2 (NOT the sentence itself, which is not decided): in compute_parameters_third_round
+    the amount by which the final round's biofuel / feed charge may be raised is half the extra meat THE FINAL ROUND'S
+    OWN HERDS deliver over the no-feed round, less 20 kcal per person per day, never negative - i.e. the charge is
+    never raised on the strength of meat the final round does not have.  The herd simulation, the conversion of its
+    results and increase_biofuels_then_feed enter through summaries (their own contracts: C06 / C05 / above); the
+    summary of the latter records the `increase` it is called with."""
+    prop = "C03"
+    file = PA
+    func = "Parameters.compute_parameters_third_round"
+    name = "final round charge is raised by no more than half of its own extra meat"
+    np_floats = True
+    merge = True
+    replayable = False
+
+    def inputs(self, S):
+        pop = S.real("population")
+        S.assume(pop > 0)
+        conv = S.set_conversions(V(Fraction(2100)), V(Fraction(47)), V(Fraction(51)), False, False, pop)
+        n = S.int("N")
+        S.assume(n >= 1)
+        zeros = lambda: V(Arr(unwrap(n), fn=lambda i: Fraction(0), dtype="float"))
+        BK = ("billion kcals each month", "thousand tons each month", "thousand tons each month")
+        KC = ("kcals per person per day each month", "effective kcals per person per day each month", "effective kcals per person per day each month")
+        ser = {k: S.series(k, n) for k in ("meat1", "meat2", "meat3", "feed2", "biofuel2", "imm1", "new1", "stored1", "feed_demand",
+                                           "biofuel_demand", "feed_used3")}
+        S.forall(n, lambda i: And(*[x[i] >= 0 for x in ser.values()]))
+        food = lambda k, units=BK: unwrap(S.food(ser[k], zeros(), zeros(), *units))
+        tc1 = {"each_month_meat_slaughtered": food("meat1")}
+        tc2 = {"each_month_meat_slaughtered": food("meat2")}
+        ir1 = S.obj(IR, "Interpreter", immediate_outdoor_crops_kcals_equivalent=food("imm1", KC), new_stored_outdoor_crops_kcals_equivalent=food("new1", KC),
+                    stored_food_kcals_equivalent=food("stored1", KC))
+        ir2 = S.obj(IR, "Interpreter", biofuels_sum_kcals_equivalent=food("biofuel2", KC), feed_sum_kcals_equivalent=food("feed2", KC))
+        fb = S.obj(FB, "FeedAndBiofuels")
+        ci = S.opendict("constants_inputs", {"COUNTRY_CODE": "XXX", "BREEDING_STRATEGY": "reduce_breeding"}, closed=True)
+        captured = {}
+        meat3 = food("meat3")
+        feed_used3 = food("feed_used3")
+
+        def herd_sim(interp, ctx, fv, args, kwargs):
+            return None  # CalculateFeedAndMeat.__init__: the simulated herds enter through `convert` below
+
+        def convert(interp, ctx, fv, args, kwargs):
+            t3 = args[6] if len(args) > 6 else kwargs["time_consts"]
+            t3["each_month_meat_slaughtered"] = meat3
+            return (feed_used3, {}, t3, args[5] if len(args) > 5 else kwargs["constants_out"])
+
+        def bump(interp, ctx, fv, args, kwargs):
+            captured["increase"] = args[3]
+            captured["biofuel"], captured["feed"] = args[1], args[2]
+            return (args[1], args[2])
+
+        def md(interp, ctx, fv, args, kwargs):
+            args[0].attrs.update(human_inedible_feed=None, kcals_per_head_meat_dict={})  # MeatAndDairy.__init__
+            return None
+
+        self.summaries = {("src/food_system/animal_populations.py", "CalculateFeedAndMeat.__init__"): herd_sim,
+                          (PA, "Parameters.init_meat_and_dairy_and_feed_from_breeding"): convert,
+                          (PA, "Parameters.increase_biofuels_then_feed"): bump,
+                          ("src/food_system/meat_and_dairy.py", "MeatAndDairy.__init__"): md,
+                          ("src/food_system/meat_and_dairy.py", "MeatAndDairy.initialize_this_country_animal_kcals"): lambda *a, **k: None}
+        args = [S.obj(PA, "Parameters"), ci, {}, {}, tc1, tc2, ir1, ir2, fb, food("feed_demand"), food("biofuel_demand"),
+                S.obj("src/food_system/animal_populations.py", "CalculateFeedAndMeat")]
+        return dict(args=args, ser=ser, n=n, conv=conv, captured=captured)
+
+    def ensures(self, S, a, res):
+        i = S.idx("i", a["n"])
+        ser, conv, cap = a["ser"], a["conv"], a["captured"]
+        if "increase" not in cap:
+            return {"compensation_is_half_the_final_rounds_own_extra_meat_less_20_kcal": V(False)}
+        # billion kcals per month <-> kcals per person per day:  x * kcals_daily * 1e9 / (kcals_monthly * population)
+        per_person = conv.kcals_daily * 10 ** 9 / (conv.kcals_monthly * conv.population)
+        half_extra = (ser["meat3"][i] - ser["meat1"][i]) / 2
+        want = Max(0, half_extra * per_person - 20) / per_person
+        got = V(cap["increase"])[i]
+        return {"compensation_is_half_the_final_rounds_own_extra_meat_less_20_kcal": got == want,
+                "compensation_never_counts_meat_the_final_round_does_not_have": got <= Max(0, half_extra),
+                "final_round_feed_starts_from_what_its_herds_used": V(cap["feed"])[i] == ser["feed_used3"][i]}
+
+
 def _c08_schedules():
     from contracts import C08
     out = []
     for c in C08.CONTRACTS:
-        if c.file == FB and c.func in ("FeedAndBiofuels.get_feed_usage", "FeedAndBiofuels.get_biofuel_usage"):
+        if c.file == FB and c.func in ("FeedAndBiofuels.get_feed_usage", "FeedAndBiofuels.get_biofuel_usage",
+                                       "FeedAndBiofuels.get_biofuels_and_feed_from_delayed_shutoff"):
             sub = type("Schedule_" + type(c).__name__, (type(c),), {"prop": "C03"})
             o = sub.__new__(sub)
             o.__dict__.update(c.__dict__)
@@ -208,7 +289,7 @@ def lp_ceilings(repo, tier, seed):
 
 
 CONTRACTS = [UsedBelowDemand("feed"), UsedBelowDemand("biofuel"), UsedAboveDemandIsRejected("feed"), UsedAboveDemandIsRejected("biofuel"),
-             FinalRoundChargesWithinDemand()] + _c08_schedules()
+             FinalRoundChargesWithinDemand(), FinalRoundCompensation()] + _c08_schedules()
 EXTRA = [checks_after_every_round, lp_ceilings]
 TRUSTED = [
     "machine floats treated as mathematical reals; the run-time checks' own tolerances (1e-4 relative, 1e-6 absolute) are part of what is proved",
